@@ -292,6 +292,38 @@ WatsonMStep(r) ==
            /\ \/ (kap = FZero /\ FLe(FMul(ell, FInt(D)), FMul(mass, FAdd(FOne, FNorm(4096, -19)))))
               \/ kap = r.kmax
               \/ Close(FMul(ratio, mass), ell, FAdd(mass, ell), 4096)
+\* Bingham: every column v_e of the stored eigenvector matrix is an eigenvector of the weighted scatter S / mass with
+\* eigenvalue s_e = v_e^H S v_e / mass (ascending), and the concentration eigenvalues solve
+\*    d log c(lambda) / d lambda_e = s_e
+\* (r.bingham_grad: kernel table from mpmath, the left-hand side at the returned eigenvalues r.bingham_lambda, which TLC
+\* checks to be the model's own eigenvalue field), unless the solver's box (max_concentration, duplicate spreading) is active
+BinghamMStep(r) ==
+  \A i \in 1..Len(LeadIdx(r)) : \A k \in 0..(KOf(r) - 1) :
+     LET ld == LeadIdx(r)[i] D == DOf(r)
+         one(n) == FOne
+         S(a, b) == ScatterS(r, ld, k, a, b, one)
+         v(a, e) == FieldAt(r, "cacg_eigenvectors", ld \o <<k, a, e>>)
+         Sv(a, e) == LET terms == [b \in 1..D |-> ZMul(S(a, b - 1)[1], v(b - 1, e))]
+                         scs == [b \in 1..D |-> FMul(S(a, b - 1)[2], ZL1(v(b - 1, e)))]
+                     IN  <<ZSum(terms), FSum(scs)>>
+         ray(e) == ZSum([a \in 1..D |-> ZMul(ZConj(v(a - 1, e)), Sv(a - 1, e)[1])])[1]     \* v_e^H S v_e (real)
+         mass == Mass(r, ld, k)
+         lam(e) == FieldAt(r, "bingham_eigenvalues", ld \o <<k, e>>)
+         base == ((i - 1) * KOf(r) + k) * D
+         grad(e) == r.bingham_grad[base + e + 1]
+         inner == FMul(r.kmax, FSub(FOne, FNorm(1, -8)))      \* strictly inside the solver's box on the eigenvalue gaps
+         free == /\ FLt(FNeg(inner), lam(0))                 \* ... and no eigenvalue clipped at -max_concentration
+                 /\ \A e \in 1..(D - 1) : /\ FLt(FAdd(lam(e - 1), FNorm(1, -6)), lam(e))
+                                          /\ FLt(FSub(lam(e), lam(e - 1)), inner)
+     IN  mass # FZero =>
+           /\ \A e \in 0..(D - 1) : r.bingham_lambda[base + e + 1] = lam(e)
+           /\ \A e \in 0..(D - 1) : \A a \in 0..(D - 1) :
+                 ZClose(Sv(a, e)[1], ZScale(ray(e), v(a, e)), FAdd(Sv(a, e)[2], FMul(FAbs(ray(e)), ZL1(v(a, e)))), MS)
+           /\ \A e, g \in 0..(D - 1) :                    \* orthonormal columns
+                 LET d == ZDotS([a \in 1..D |-> v(a - 1, e)], [a \in 1..D |-> v(a - 1, g)])
+                 IN  ZClose(d[1], IF e = g THEN <<FOne, FZero>> ELSE ZZero, FAdd(d[2], FOne), MS)
+           /\ \A e \in 1..(D - 1) : FLe(ray(e - 1), FAdd(ray(e), FMul(FNorm(MS, -19), mass)))   \* ascending
+           /\ free => \A e \in 0..(D - 1) : Close(FMul(grad(e), mass), ray(e), mass, 4 * MS)
 \* vMF: mean || resultant r = sum g x, unit; kappa^2 (1 - rb2)^2 = rb2 (D - rb2)^2 with rb2 = |r|^2 / mass^2, clipped
 VmfMStep(r) ==
   \A i \in 1..Len(LeadIdx(r)) : \A k \in 0..(KOf(r) - 1) :
@@ -333,6 +365,49 @@ GaussMStep(r) ==
                      LET c == FieldAt(r, "gaussian_covariance_spherical", pre \o <<k>>)
                          tot == FSum([a \in 1..D |-> cov(a - 1, a - 1)[1]])
                      IN  Close(FMul(FMul(c, mass), FInt(D)), tot, FAdd(tot, FMul(FMul(FAbs(c), mass), FInt(D))), MS)
+
+\* integration models: the spectral stream (Gaussian / vMF over the embeddings r.emb (F, N, E)) is pooled over ALL
+\* leading indices: one parameter set per class, no leading axis
+EmbAt(r, ld, n, a) == Get(r.emb, ld \o <<n, a>>)
+EDim(r) == r.emb.shape[Len(r.emb.shape)]
+PoolSum(r, k, T(_, _)) ==      \* sum over (lead, n) of gamma * T(lead, n) -> <<value, scale>>
+  FoldLeft(LAMBDA acc, i :
+     FoldLeft(LAMBDA a2, n : LET t == FMul(GammaS(r, LeadIdx(r)[i], k, n - 1), T(LeadIdx(r)[i], n - 1))
+                             IN  <<FAdd(a2[1], t), FAdd(a2[2], FAbs(t))>>, acc, [n \in 1..NOf(r) |-> n]),
+     <<FZero, FZero>>, [i \in 1..Len(LeadIdx(r)) |-> i])
+PooledGauss(r) ==
+  \A k \in 0..(KOf(r) - 1) :
+     LET E == EDim(r)
+         mass == PoolSum(r, k, LAMBDA ld, n : FOne)[1]
+         m(a) == FieldAt(r, "gaussian_mean", <<k, a>>)
+         ms(a) == PoolSum(r, k, LAMBDA ld, n : EmbAt(r, ld, n, a))
+         cv(a, b) == PoolSum(r, k, LAMBDA ld, n : FMul(FSub(EmbAt(r, ld, n, a), m(a)), FSub(EmbAt(r, ld, n, b), m(b))))
+     IN  mass # FZero =>
+           /\ \A a \in 0..(E - 1) : Close(FMul(m(a), mass), ms(a)[1], FAdd(ms(a)[2], FMul(FAbs(m(a)), mass)), MS)
+           /\ CASE r.gtype = "full" -> \A a, b \in 0..(E - 1) :
+                     LET c == FieldAt(r, "gaussian_covariance_full", <<k, a, b>>)
+                     IN  Close(FMul(c, mass), cv(a, b)[1], FAdd(cv(a, b)[2], FMul(FAbs(c), mass)), MS)
+                [] r.gtype = "diagonal" -> \A a \in 0..(E - 1) :
+                     LET c == FieldAt(r, "gaussian_covariance_diagonal", <<k, a>>)
+                     IN  Close(FMul(c, mass), cv(a, a)[1], FAdd(cv(a, a)[2], FMul(FAbs(c), mass)), MS)
+                [] r.gtype = "spherical" ->
+                     LET c == FieldAt(r, "gaussian_covariance_spherical", <<k>>)
+                         tot == FSum([a \in 1..E |-> cv(a - 1, a - 1)[1]])
+                     IN  Close(FMul(FMul(c, mass), FInt(E)), tot, FAdd(tot, FMul(FMul(FAbs(c), mass), FInt(E))), MS)
+PooledVmf(r) ==
+  \A k \in 0..(KOf(r) - 1) :
+     LET E == EDim(r)
+         mass == PoolSum(r, k, LAMBDA ld, n : FOne)[1]
+         res(a) == PoolSum(r, k, LAMBDA ld, n : EmbAt(r, ld, n, a))
+         mu(a) == FieldAt(r, "vmf_mean", <<k, a>>)
+         n2 == FSum([a \in 1..E |-> FSq(res(a - 1)[1])])
+         rb2 == FDiv(n2, FSq(mass))
+         kap == FieldAt(r, "vmf_concentration", <<k>>)
+     IN  (mass # FZero /\ n2 # FZero) =>
+           /\ \A a, b \in 0..(E - 1) : Close(FMul(res(a)[1], mu(b)), FMul(res(b)[1], mu(a)),
+                                             FAdd(FMul(res(a)[2], FAbs(mu(b))), FMul(res(b)[2], FAbs(mu(a)))), MS)
+           /\ \/ kap = r.kmin \/ kap = r.kmax
+              \/ CloseRel(FMul(FSq(kap), FSq(FSub(FOne, rb2))), FMul(rb2, FSq(FSub(FInt(E), rb2))), 4096)
 \* mixture weights in Flt (same rule as WeightXChecks)
 WeightMStep(r) ==
   LET w == Field(r.fields, "weight").t
@@ -361,8 +436,11 @@ MStepChecks(r) ==
   ELSE << <<"weight", WeightMStep(r)>> >>
        \o (IF r.comp = "cacg" THEN << <<"cacg_tyler_step", CacgMStep(r)>> >> ELSE <<>>)
        \o (IF r.comp = "watson" THEN << <<"watson_estimator", WatsonMStep(r)>> >> ELSE <<>>)
+       \o (IF r.comp = "bingham" THEN << <<"bingham_estimator", BinghamMStep(r)>> >> ELSE <<>>)
        \o (IF r.comp = "vmf" THEN << <<"vmf_estimator", VmfMStep(r)>> >> ELSE <<>>)
        \o (IF r.comp = "gaussian" THEN << <<"gaussian_moments", GaussMStep(r)>> >> ELSE <<>>)
+       \o (IF r.pooled = "gaussian" THEN << <<"pooled_gaussian_moments", PooledGauss(r)>> >> ELSE <<>>)
+       \o (IF r.pooled = "vmf" THEN << <<"pooled_vmf_estimator", PooledVmf(r)>> >> ELSE <<>>)
 
 (* ---- qform : the quadratic form handed to the next M-step is z^H B_prev^-1 z (C08 alternation) ---- *)
 QFormChecks(r) ==
